@@ -32,7 +32,7 @@ Uninit == <<-1>>          \* a byte tuple that is no encoding: the slot holds a 
 Nil    == <<-1>>          \* no key object
 
 EncPt(a)  == EncUncompressedB(a)
-PtOf(st, i) == DecodeB(st.pt[i])[2]                 \* only for valid slots (invariant: always decodes)
+PtOf(st, i) == LET dd == DecodeB(st.pt[i]) IN IF dd[1] = "ok" THEN dd[2] ELSE Inf      \* StateOK: valid slots always decode
 IsValidSlot(st, i) == st.pt[i] # Uninit
 ScOf(st, i) == OS2IP(st.sc[i])
 EncSc(x)  == I2OSP(x, W)
